@@ -126,6 +126,30 @@ Section Loader.
         Ok (l_root l :: rs)
     end.
 
+  (* the same recursion with its trace: the roots visited up to the first refusal, and the outcome class *)
+  Fixpoint visit_trace (fuel : nat) (fs : fsops) (bases : string -> list string) (l : loader)
+    : list string * oclass :=
+    match fuel with
+    | O => ([], CDiverge)
+    | S f =>
+        let (rs, c) :=
+          (fix go (ps : list string) : list string * oclass :=
+             match ps with
+             | [] => ([], COk)
+             | p :: t =>
+                 match new_root fs l p with
+                 | Ok l2 =>
+                     let (a, ca) := visit_trace f fs bases l2 in
+                     match ca with
+                     | COk => let (b, cb) := go t in ((a ++ b)%list, cb)
+                     | _ => (a, ca)
+                     end
+                 | r => ([], class_of r)
+                 end
+             end) (bases (l_root l)) in
+        (l_root l :: rs, c)
+    end.
+
   (* loader.NewLoader: the loader krusty.Run starts from *)
   Definition new_loader (fs : fsops) (r : restriction) (target : string) : res loader :=
     if is_repo target then git_new (mkLoader "" [] r) target
